@@ -240,6 +240,64 @@ theorem C08_removed_member (cfg : Cfg) (ctx : ClsCtx) (d impl : Call) (body : Li
   | false => rw [spec_decl_member_if cfg ctx _ d impl body c (by simpa using hn)]; simp
   | true => rw [spec_decl_ctor_if cfg ctx _ d impl body c (by simpa using hn)]; simp
 
+/-- "members are shown only if their class is shown": in a context other than `.shown` (file level, or inside a
+class that has no entry) no item list hands anything to a class, under any configuration -/
+theorem C08_hidden_no_members (cfg : Cfg) (ctx : ClsCtx) (hctx : ctx ≠ .shown) (items : List Item) :
+    (itemsSpec cfg ctx items).inner = [] ∧ (itemsSpec cfg ctx items).ctors = [] ∧
+    (itemsSpec cfg ctx items).members = [] ∧ (itemsSpec cfg ctx items).attrs = [] :=
+  itemsSpec_noClassPart cfg ctx hctx items
+
+/-- all kinds together: an item without a doccomment contributes an entry of its own iff the flag of its kind is on
+(members, constructors and attributes additionally iff the innermost class is shown); a declaration without an
+entry leaves its implementing definition to the function/macro flag -/
+theorem C08_removed (cfg : Cfg) (ctx : ClsCtx) :
+    (∀ o body c (isMacro : Bool), o.lname = (if isMacro then lit "macro" else lit "function") →
+      (Item.block none o body c).spec cfg ctx =
+        (if (if isMacro then cfg.inclMacro else cfg.inclFunction) then { top := [defEntry cfg isMacro none o body] }
+         else {}) ++ itemsSpec cfg ctx body) ∧
+    (∀ call, call.lname = lit "option" →
+      (Item.cmd none call).spec cfg ctx =
+        if cfg.inclOption then
+          { top := [.opt (call.singles.headD []) [] (call.singles.getD 1 []) call.singles[2]?] } else {}) ∧
+    (∀ call, call.lname = lit "add_test" →
+      (Item.cmd none call).spec cfg ctx =
+        if cfg.inclAddTest then { top := [.ctest (nameOf call.singles).1 [] (ctestParams call.singles)] } else {}) ∧
+    (∀ call, call.lname = lit "cpp_attr" →
+      (Item.cmd none call).spec cfg ctx =
+        if ctx = .shown ∧ cfg.inclCppAttr = true then
+          { attrs := [{ name := call.singles.getD 1 [], doc := [], parentClass := call.singles.headD [],
+                        dflt := call.singles[2]? }] } else {}) ∧
+    (∀ o body c, o.lname = lit "cpp_class" →
+      (Item.block none o body c).spec cfg ctx =
+        if cfg.inclCppClass then
+          { top := .cls (o.singles.headD []) [] (o.singles.drop 1) (itemsSpec cfg .shown body).inner
+                     (itemsSpec cfg .shown body).ctors (itemsSpec cfg .shown body).members
+                     (itemsSpec cfg .shown body).attrs :: (itemsSpec cfg .shown body).top,
+            inner := if ctx = .shown then [o.singles.headD []] else [] }
+        else { top := (itemsSpec cfg .hidden body).top }) ∧
+    (∀ d impl body c (isSection : Bool), d.lname = (if isSection then lit "ct_add_section" else lit "ct_add_test") →
+      (Item.decl none d impl body c).spec cfg ctx =
+        (if (if isSection then cfg.inclCtAddSection else cfg.inclCtAddTest) then
+          { top := [.test isSection (nameOf d.singles).1 [] (d.singles.contains (lit "EXPECTFAIL"))
+                      (impl.singles.drop 2) (impl.lname = lit "macro")] }
+         else asDefinition cfg impl body) ++ itemsSpec cfg ctx body) ∧
+    (∀ d impl body c (isCtor : Bool), d.lname = (if isCtor then lit "cpp_constructor" else lit "cpp_member") →
+      (Item.decl none d impl body c).spec cfg ctx =
+        (if ctx = .shown ∧ (if isCtor then cfg.inclCppConstructor else cfg.inclCppMember) = true then
+          (if isCtor then { ctors := [methodOf cfg none d impl true] }
+           else { members := [methodOf cfg none d impl false] })
+         else asDefinition cfg impl body) ++ itemsSpec cfg ctx body) ∧
+    (∀ call, call.lname ≠ lit "option" → call.lname ≠ lit "add_test" → call.lname ≠ lit "cpp_attr" →
+      (Item.cmd none call).spec cfg ctx = {}) :=
+  ⟨fun o body c isMacro hn => C08_removed_def cfg ctx o body c isMacro hn,
+   fun call hn => C08_removed_option cfg ctx call hn,
+   fun call hn => C08_removed_add_test cfg ctx call hn,
+   fun call hn => C08_removed_attr cfg ctx call hn,
+   fun o body c hn => C08_removed_class cfg ctx o body c hn,
+   fun d impl body c isSection hn => C08_removed_test cfg ctx d impl body c isSection hn,
+   fun d impl body c isCtor hn => C08_removed_member cfg ctx d impl body c isCtor hn,
+   fun call h2 h3 h4 => C08_removed_never cfg ctx call h2 h3 h4⟩
+
 /-! ## the listener state machine -/
 
 /-- Through `T_agg`, **outside the K1 region** (hence `_partial`; see `T_agg_K1_counterexample`): for a well-formed
@@ -312,9 +370,11 @@ example : ((itemsSpec { inclCppMember := false } .none exMixed).top.map
                              | .var n .. => (n, []) | .opt n .. => (n, []) | _ => ([], []))) =
     [(lit "A", [lit "m1"]), (lit "_m2", []), (lit "B", []), (lit "O", []), (lit "V", [])] := by decide
 
-example : (Item.decl none (mkCall "cpp_member" ["m2", "A"]) (mkCall "function" ["_m2", "self"]) []
-      (mkCall "endfunction" [])).spec { inclCppMember := false } .shown =
-    { top := [.func false (lit "_m2") [] [lit "self"] false] } := by
-  rw [C08_removed_member _ .shown _ _ _ _ false (by decide)]; decide
+example : ((Item.decl none (mkCall "cpp_member" ["m2", "A"]) (mkCall "function" ["_m2", "self"]) []
+      (mkCall "endfunction" [])).spec { inclCppMember := false } .shown).top =
+      [.func false (lit "_m2") [] [lit "self"] false] ∧
+    ((Item.decl none (mkCall "cpp_member" ["m2", "A"]) (mkCall "function" ["_m2", "self"]) []
+      (mkCall "endfunction" [])).spec { inclCppMember := false } .shown).members = [] := by
+  rw [C08_removed_member _ .shown _ _ _ _ false (by decide)]; exact ⟨by decide, by decide⟩
 
 end Cminx
